@@ -16,12 +16,12 @@ fn execs_per_scenario(ctx: &Ctx) -> usize {
 pub fn sections(ctx: &Ctx) -> Vec<(&'static str, u64)> {
     let w1 = w1_scenarios(&ctx.corpus, true).len() as u64;
     let (w2, w3, w4) = match ctx.tier {
-        Tier::Quick => (400, 160, 200),
+        Tier::Quick => (800, 400, 300),
         Tier::Thorough => (10_000, 2_000, 5_000),
     };
     // rejected programs of many shapes: snippets with one token lost, duplicated or swapped
     let w5t = match ctx.tier {
-        Tier::Quick => 60,
+        Tier::Quick => 120,
         Tier::Thorough => 1200,
     } * ctx.scale;
     let w5 = match ctx.tier {
